@@ -274,7 +274,8 @@ def m_tuple(interp, args, kwargs):
     if isinstance(src, (SOpt, SChoice)):
         src = interp.resolve(src)
     if isinstance(src, SList):
-        return src
+        from . import seqs
+        return seqs.frozen(src)
     return tuple(interp.iterate(src))
 
 
@@ -588,14 +589,29 @@ def m_reduce(interp, args, kwargs):
     return acc
 
 
+def _chain(interp, parts):
+    """itertools.chain over a concrete number of iterables: when one of them is a sequence of symbolic
+    length the result is their concatenation (an immutable sequence stands for the one-shot iterator:
+    sound as long as it is consumed once -- tuple()/list()/one loop)."""
+    parts = [interp.resolve(p) if isinstance(p, (SOpt, SChoice)) else p for p in parts]
+    if any(isinstance(p, SList) for p in parts):
+        from . import seqs
+        acc = None
+        for p in parts:
+            piece = p if isinstance(p, SList) else list(interp.iterate(p))
+            acc = piece if acc is None else seqs.concat(interp, acc, piece)
+        return acc if isinstance(acc, SList) else iter(acc)
+    return itertools.chain(*[interp.iterate(p) for p in parts])
+
+
 @model(itertools.chain)
 def m_chain(interp, args, kwargs):
-    return itertools.chain(*[interp.iterate(a) for a in args])
+    return _chain(interp, list(args))
 
 
 @model(itertools.chain.from_iterable)
 def m_chain_from_iterable(interp, args, kwargs):
-    return itertools.chain.from_iterable(interp.iterate(a) for a in interp.iterate(args[0]))
+    return _chain(interp, list(interp.iterate(args[0])))
 
 
 for _op in (operator.lt, operator.le, operator.gt, operator.ge, operator.eq, operator.ne):
@@ -759,7 +775,8 @@ def slist_iter(interp, xs):
 
 
 def slist_copy(interp, xs):
-    return xs
+    from . import seqs
+    return seqs.copy(xs)
 
 
 def slist_binop(interp, opcls, a, b):
